@@ -1,10 +1,11 @@
-\* the design, tool folder on another file system than the system locations (link(2) -> EXDEV)
+\* design variant "restore refuses a backup whose time stamp is not within the last 7 days" with a steady clock and commands
+\* seconds apart: indistinguishable from the design
 SPECIFICATION Spec
 CONSTANTS
   SameFs = FALSE
   LinkBackup = FALSE
-  ClockSteps = TRUE
-  StaleCheck = FALSE
+  ClockSteps = FALSE
+  StaleCheck = TRUE
 INVARIANTS
   TypeOK
   RoundTrip
